@@ -124,7 +124,7 @@ def run(tier, seed):
                samples=[dict(spec=gen.spec_jsonable(s0[0]), semiring=repr(s0[1]), method=s0[2], tol=s0[3], kmax=s0[4], observed=s0[5])] if s0 else [],
                open_items=["Newton iterates between Kleene iterates and the least fixed point (EKL) -- tier B; newton/linear values are judged by the enclosure oracle, not by a model of the iteration",
                            "must_warn unrolls the first kmax+1 stopping tests (kmax in {1,2}) on tables built with the code-shaped F_model; the loop theorems (C02_fixed_point_warns_iff, C02_newton_warns_iff) are about an abstract F/close -- F_model = step on the range (C01's spe theorem lifted to recursive components) is not connected here",
-                           "C02_linear_affine gives F x = J0.x + F0 with linear's J0/F0; that multi_solve J0 F0 is the least solution is C09's theorem and is not connected here; C02_scc_decomposition is proved for exactly solved components (Prop-level exact_run), not for the table-level driver with approximate per-component results"])
+                           "C02_linear_is_least_fixed_point (multi_solve J0 F0 is the least fixed point of a linearly recursive component, any elimination order / the code's order, all ordered star-semirings; instances for Bool, Real, Viterbi) takes as hypothesis that the MultiTensors J0/F0 hold lin_J0/lin_F0 at the row-major positions of the index tuples (tabulates_J0/tabulates_F0); that linear's sum_product_edges calls produce exactly these tables is C01's spe theorem and is not connected at table level, and Newton's linear sub-steps are not modelled; C02_scc_decomposition is proved for exactly solved components (Prop-level exact_run), not for the table-level driver with approximate per-component results"])
     return cov, violations
 
 def replay(path):
@@ -141,7 +141,7 @@ def replay(path):
 
 MANIFEST = dict(
     level="proof",
-    text="Coq: Kleene iterates of the grammar's equations are the bounded-depth derivation sums (C01's theorem), are monotone, stay below every pre-fixed point (Park), also when rounded down; hence [K rounded Kleene steps, verified pre-fixed point] encloses the least fixed point. Every value returned by fixed-point / newton / linear on generated recursive FGGs must meet that enclosure (exactly in Bool/Viterbi); budget-exhaustion warnings and the ValueError of method='linear' are compared with the control-flow model. Also proved: the loop shapes of fixed_point / newton warn iff the stopping test never held within the budget (the pre-repair newton loop never warns), ValueError iff method=linear meets a rule with two component edges, linearly recursive components are affine with linear's J0/F0, SCC-by-SCC exact solution is the global least fixed point, and verdict 0 of the check implies the observed values are (Bool) / enclose (Viterbi) / meet a certified enclosure of (Real, Log) the least fixed point.",
+    text="Coq: Kleene iterates of the grammar's equations are the bounded-depth derivation sums (C01's theorem), are monotone, stay below every pre-fixed point (Park), also when rounded down; hence [K rounded Kleene steps, verified pre-fixed point] encloses the least fixed point. Every value returned by fixed-point / newton / linear on generated recursive FGGs must meet that enclosure (exactly in Bool/Viterbi); budget-exhaustion warnings and the ValueError of method='linear' are compared with the control-flow model. Also proved: the loop shapes of fixed_point / newton warn iff the stopping test never held within the budget (the pre-repair newton loop never warns), ValueError iff method=linear meets a rule with two component edges, linearly recursive components are affine with linear's J0/F0 and multi_solve(J0, F0) -- what method='linear' and newton's downgrade return -- is their least fixed point in every ordered star-semiring (C02_linear_is_least_fixed_point, composed with C09_multi_solve_refines), SCC-by-SCC exact solution is the global least fixed point, and verdict 0 of the check implies the observed values are (Bool) / enclose (Viterbi) / meet a certified enclosure of (Real, Log) the least fixed point.",
     note="Trusted: Coq kernel, extraction cross-checked by vm_compute, harness; Newton's iterates are not modelled (judged by the enclosure oracle); grammars without a certified enclosure are discarded (counted in evidence).",
     technique="Coq proof (Park induction, Kleene = derivation sums) + certified-enclosure oracle on implementation outputs + control-flow correspondence",
     design_ref="DESIGN.md section 6, C02")
